@@ -8,6 +8,7 @@ import (
 	"net"
 	"strings"
 	"sync"
+	"sync/atomic"
 	"testing"
 	"time"
 
@@ -570,5 +571,146 @@ func TestIsolation(t *testing.T) {
 		}
 		h := append([]string{"carrier=" + carrier}, w.history...)
 		vlib.Rec.Case(strings.Join(h, ";"), nontrivial, labels, func() interface{} { return h })
+	})
+}
+
+// TestSlowReaderWithinTheSharedBuffer: "An open connection ... whose reader is merely slow never delays the others", for
+// stalled connections that hold less unread data than the multiplexer's shared 4 MiB receive buffer. The stalled
+// connection's target sits on a unix-domain socket (about 200 KiB of kernel buffering; a loop-back TCP target would
+// absorb several MiB in the kernel and the tunnel's own buffer would never fill), reads nothing, and is sent a drawn
+// 0.7-3 MiB. Meanwhile an established connection and a freshly opened one on the same session must complete echo
+// round trips; after the release everything must arrive at the slow target.
+func TestSlowReaderWithinTheSharedBuffer(t *testing.T) {
+	budget := int32(vlib.Pick(12, 120))
+	var ran int32
+	rapid.Check(t, func(rt *rapid.T) {
+		if atomic.AddInt32(&ran, 1) > budget {
+			return
+		}
+		carrier := []string{vlib.CarTCP, vlib.CarHTTP, vlib.CarTCPTLS, vlib.CarUnix, vlib.CarStdio}[rapid.IntRange(0, 4).Draw(rt, "carrier")]
+		stalled := rapid.IntRange(700*1024, 3*1024*1024).Draw(rt, "stalledBytes")
+		parts := rapid.IntRange(1, 40).Draw(rt, "writes")
+		d := map[string]interface{}{"carrier": carrier, "bytes_sent_to_the_slow_reader": stalled, "in_writes": parts}
+		fail := func(msg string) {
+			vlib.Rec.Violation(map[string]interface{}{"property": "C02", "slow_reader_case": d, "problem": msg, "log": vlib.Tap.Tail(10)})
+			rt.Fatalf("C02 slow reader %v: %s", d, msg)
+		}
+		release := make(chan struct{})
+		type got struct {
+			n   int
+			bad int
+		}
+		sinkGot := make(chan got, 1)
+		payload := vlib.PRF(4242, 0, stalled)
+		sink := vlib.NewUnixTarget("sink", func(tc *vlib.TargetConn) {
+			defer tc.Conn.Close()
+			<-release
+			buf := make([]byte, 64*1024)
+			n, bad := 0, -1
+			tc.Conn.SetReadDeadline(time.Now().Add(30 * time.Second))
+			for n < stalled {
+				k, err := tc.Conn.Read(buf)
+				if bad == -1 {
+					if off := vlib.FirstDiff(buf[:k], payload[n:n+k]); off != -1 {
+						bad = n + off
+					}
+				}
+				n += k
+				if err != nil {
+					break
+				}
+			}
+			sinkGot <- got{n, bad}
+		})
+		defer sink.Close()
+		echo := vlib.NewTarget("echo", vlib.EchoHandler)
+		defer echo.Close()
+		cfg := vlib.PairConfig{Carrier: carrier, ClientInsecure: true,
+			Channels:  []vlib.ChannelSpec{{Name: "sink", Target: sink.URL()}, {Name: "echo", Target: echo.URL()}},
+			Listeners: []vlib.ListenerSpec{{Channel: "sink"}, {Channel: "echo"}}}
+		if strings.Contains(carrier, "tls") {
+			cfg.ServerCert = &vlib.GetPKI().ServerGood
+		}
+		vlib.Tap.Reset()
+		p, err := vlib.StartPair(cfg)
+		if err != nil {
+			if vlib.IsBindError(err) {
+				vlib.Rec.Inconclusive("bind")
+				return
+			}
+			rt.Fatalf("pair start: %v", err)
+		}
+		defer p.Close()
+		defer func() {
+			select {
+			case <-release:
+			default:
+				close(release)
+			}
+		}()
+		roundTrip := func(c net.Conn, tag uint64) string {
+			msg := vlib.PRF(tag, 0, 2000)
+			c.SetDeadline(time.Now().Add(bound))
+			if _, err := c.Write(msg); err != nil {
+				return "write: " + err.Error()
+			}
+			g, err := vlib.ReadFullTimeout(c, len(msg), bound)
+			if vlib.FirstDiff(g, msg) != -1 {
+				return fmt.Sprintf("%d of %d echo bytes within %v (%v)", len(g), len(msg), bound, err)
+			}
+			return ""
+		}
+		b, err := p.Dial("echo")
+		if err != nil {
+			rt.Fatalf("dial: %v", err)
+		}
+		defer b.Close()
+		if m := roundTrip(b, 1); m != "" {
+			fail("echo connection before anything stalls: " + m)
+		}
+		a, err := p.Dial("sink")
+		if err != nil {
+			rt.Fatalf("dial: %v", err)
+		}
+		defer a.Close()
+		wdone := make(chan error, 1)
+		go func() {
+			sizes := make([]int, parts)
+			for i := range sizes {
+				sizes[i] = stalled/parts + 1
+			}
+			a.SetWriteDeadline(time.Now().Add(60 * time.Second))
+			wdone <- vlib.WriteParts(a, payload, sizes, 0)
+		}()
+		time.Sleep(700 * time.Millisecond) // let the unread data pile up inside the tunnel
+		if m := roundTrip(b, 2); m != "" {
+			fail(fmt.Sprintf("the established connection is delayed while another connection's reader holds at most %d unread bytes: %s", stalled, m))
+		}
+		c, err := p.Dial("echo")
+		if err != nil {
+			rt.Fatalf("dial: %v", err)
+		}
+		defer c.Close()
+		if m := roundTrip(c, 3); m != "" {
+			fail(fmt.Sprintf("a connection opened while another connection's reader holds at most %d unread bytes is delayed: %s", stalled, m))
+		}
+		close(release)
+		select {
+		case err := <-wdone:
+			if err != nil {
+				fail("write towards the slow reader failed after its release: " + err.Error())
+			}
+		case <-time.After(40 * time.Second):
+			fail("write towards the slow reader did not complete after its release")
+		}
+		select {
+		case g := <-sinkGot:
+			if g.n != stalled || g.bad != -1 {
+				fail(fmt.Sprintf("the slow reader received %d of %d bytes, first difference at %d", g.n, stalled, g.bad))
+			}
+		case <-time.After(40 * time.Second):
+			fail("the slow reader did not receive its data after the release")
+		}
+		vlib.Rec.Case(fmt.Sprintf("slow-reader %v", d), true, []string{"slow-reader-within-shared-buffer", "carrier:" + carrier}, func() interface{} { return d })
 	})
 }
